@@ -130,7 +130,13 @@ def _one(sc, r):
         j = sc["index"] * sc["n_conditions"] + ci
         min_class = ["default", "small", "mid", "large", "gt_max"][j % 5]
         max_class = ["default", "mid", "lt_min", "eq_total", "gt_total"][(j // 5) % 5]
-        thr_class = ["always", "mid", "never", "mid"][(j // 25 + j) % 4] if j >= 25 else "always"
+        if j >= 25:
+            thr_class = ["always", "mid", "never", "mid"][(j // 25 + j) % 4]
+        elif max_class in ("mid", "eq_total", "gt_total") and min_class in ("small", "mid", "large"):
+            # the maximum (or, for max_steps > total, the configured total) is the deciding clause
+            thr_class = "never"
+        else:
+            thr_class = "always"  # the minimum is the deciding clause
         if sc["kind"] == "energy":
             pos = energy_t[energy_t > 0]
             lo_e, hi_e = (float(pos.min()), float(pos.max())) if len(pos) else (1e-30, 1e-20)
